@@ -198,7 +198,15 @@ func runCLI(in []byte) (*reg.Result, error) {
 					case strings.HasPrefix(e.Name(), "p1-"):
 						seen["p1"] = true
 						if strings.Join(got, ",") != strings.Join(want, ",") {
-							res.Violate("cli/generate/filtered-plugin/"+sig, info, "the filtered plugin received other elements than the specification keeps:\n got %v\nwant %v", got, want)
+							vsig := "cli/generate/filtered-plugin/" + sig
+							for _, x := range c.Exclude {
+								if x == "OptMsg" || x == "Holder" {
+									// the message type of a custom option that a surviving element uses is excluded (same
+									// defect as in the library stage)
+									vsig = "elements/custom-option-value-type-excluded"
+								}
+							}
+							res.Violate(vsig, info, "the filtered plugin received other elements than the specification keeps:\n got %v\nwant %v", got, want)
 						}
 					case strings.HasPrefix(e.Name(), "p2-"):
 						seen["p2"] = true
